@@ -11,9 +11,15 @@
 #include <cstdlib>
 #include <cstdio>
 #if defined(__SANITIZE_ADDRESS__)
+#define GOMP_ASAN 1
+#elif defined(__has_feature)
+#if __has_feature(address_sanitizer)
+#define GOMP_ASAN 1
+#endif
+#endif
+#ifdef GOMP_ASAN
 #include <sanitizer/common_interface_defs.h>
 #include <sanitizer/asan_interface.h>
-#define GOMP_ASAN 1
 #endif
 #if defined(__x86_64__)
 extern "C" void sim_ctx_switch(void** save_sp, void* new_sp);   // sim/sim.cpp
@@ -267,7 +273,7 @@ int omp_get_thread_num(void) { sim::World* w = W(); return w ? w->omp_tid : 0; }
 // Eigen's own OpenMP GEMM (which spin-waits between threads and cannot run on serialised logical threads) is switched off
 // at compile time with -DEIGEN_DONT_PARALLELIZE; it is only reachable for blocks larger than about 47x47 anyway.
 int omp_get_max_threads(void) { sim::World* w = W(); return w ? team_size(w, 0) : 1; }
-int omp_get_num_procs(void) { return 16; }
+int omp_get_num_procs(void) { sim::World* w = W(); int n = w ? w->opt().omp_procs : 16; return n < 1 ? 1 : n; }   // an environment parameter: may be smaller than the team
 int omp_in_parallel(void) { return omp_get_num_threads() > 1; }
 void omp_set_num_threads(int n) { g_requested_threads = n; }
 int omp_get_dynamic(void) { return 0; }
